@@ -39,4 +39,9 @@ META = {
   "text": "The generator owns the encoding of every value, so each of the ~25 on-disk encodings and every integer width is produced deliberately and reaches the tool's loader, splitter, RESTORE builder and command expander; the double executes what the tool sends with Redis semantics and the final keyspace is compared with the dataset. Exploration over an unbounded input space.",
   "note": "Trusts ref/rdbgen and the double's command semantics. Not compared (documented as not replayable): consumers without pending entries, consumer seen/active time, IDMP state, entries_read of v1 streams (estimated by the tool). Listpacks with an 'unknown' element count are not generated (the property quantifies unknown length over ziplists).",
  },
+ "C20": {
+  "technique": "property-based testing (rapid): C03's generator plus a generated pre-populated target and policy; oracle = per-policy keyspace invariants on the interpreting double (snapshot wins / existing key byte-identical / error before modification)",
+  "text": "Every combination of policy x replay path x same-or-different existing type arises from generation and is labelled from what was measured; the double holds the pre-existing values so 'unchanged' is a byte comparison. Exploration level.",
+  "note": "Plain (non-bidirectional) replay path. Same trusted base as C03.",
+ },
 }
